@@ -83,15 +83,16 @@ PROPS = {
     ),
     "C06": dict(
         title="Group-element encodings are canonical, injective and strictly decoded",
-        verus=[("p256_decode", None, "quick")], kani=[],
+        verus=[("p256_decode", None, "quick"), ("jq255e_codec", None, "quick"), ("jq255s_codec", None, "quick"), ("jq255e_law", None, "quick"), ("jq255s_law", None, "quick")], kani=[],
         cases=_c(["decode_strict", "encode_equals", "subgroup_flags", "neutral_consistency"]),
-        level_text="P-256 Point::set_decode is proved by Verus, for every byte string of every length, to return the SEC 1 section 2.3.4 result: status all-ones exactly for 0x00 (neutral), 0x02/0x03 || X with X < p big-endian and X^3 - 3X + b a square (Y = the root of the requested parity), 0x04 || X || Y with X, Y < p on the curve; every other string (wrong length, wrong prefix, non-canonical coordinate, off-curve) gives status 0 and the neutral point; the stored coordinates are the decoded ones with Z = 1. Field operations are declared value-level contracts (decode32, +, -, *, square, sqrt, equals, select, set_cond, encode).",
+        level_text="P-256 Point::set_decode is proved by Verus, for every byte string of every length, to return the SEC 1 section 2.3.4 result: status all-ones exactly for 0x00 (neutral), 0x02/0x03 || X with X < p big-endian and X^3 - 3X + b a square (Y = the root of the requested parity), 0x04 || X || Y with X, Y < p on the curve; every other string (wrong length, wrong prefix, non-canonical coordinate, off-curve) gives status 0 and the neutral point; the stored coordinates are the decoded ones with Z = 1. Field operations are declared value-level contracts (decode32, +, -, *, square, sqrt, equals, select, set_cond, encode). jq255e / jq255s: set_decode / decode accept exactly the 32-byte strings whose little-endian value u is below q with bp*u^4 + ap*u^2 + 1 a square, store (E, 1, u, u^2) with E the non-negative root, and the neutral (-1:1:0:0) on rejection; encode returns U/Z negated when E/Z is negative (extra/jq255-formulas.txt, Decoding / Encoding); isneutral is U == 0 and equals is U1*E2 == U2*E1 (same document).",
         level_note="Declared dependencies: ModInt256 value-level operation contracts (spec/modint_value_ops.vrs; the Montgomery-level statements are proved in the modint_* units, the division by 2^256 between the two is by reading), bswap32 (byte reversal), constants written w64be(..) denote those integers. In the (impossible on a prime-order curve, not provable here) case X^3-3X+b == 0 the parity clause is waived. Other curves and encoders: stand-in only until their units are registered.",
         assumptions=["ModInt256 value-level contracts (decode32 strict with value, ring operations mod m, sqrt: status iff square and even root, equals/select/set_cond, encode32 little-endian canonical): declared",
                      "p256::bswap32 reverses 32 bytes: declared",
                      "Point::B / Point::THREE (compile-time Montgomery conversion of the literal limbs) represent the integers written in the source: declared axiom over the literals extracted from the source on every run",
-                     "sval(x) in 0..m-1 for every ModInt256 value, ZERO/ONE represent 0/1: declared axioms"],
-        not_reached=["encoders, equals/isneutral of P-256", "all other curves and abstractions (units pending)"],
+                     "sval(x) in 0..m-1 for every ModInt256 value, ZERO/ONE represent 0/1: declared axioms",
+                     "GF255 decode32 / encode (proved by Kani for the three instantiated moduli), sqrt (status iff square, non-negative root) and field division: declared contracts; GF255::MINUS_ONE represents -1: declared axiom"],
+        not_reached=["encoders, equals/isneutral of P-256", "ed25519, ed448, secp256k1, gls254, ristretto255, decaf448 (units pending)", "that the accepted strings are exactly the group elements (number theory of the Jacobi quartic) and injectivity of the encoding"],
     ),
     "C07": dict(
         title="Ed25519/Ed448 verification equals the strict cofactored RFC 8032 predicate",
